@@ -45,7 +45,7 @@ module_logger = logging.getLogger(__name__)
 
 class Model(object):
     def __init__(self, npt, x0, r0, xl, xu, projections, r0_nsamples, h=None, argsh=(), n=None, m=None, abs_tol=1e-12, rel_tol=1e-20, precondition=True,
-                 do_logging=True, scaling_changes=None):
+                 do_logging=True, scaling_changes=None, x0_eval_num=1):
         if n is None:
             n = len(x0)
         if m is None:
@@ -86,7 +86,7 @@ class Model(object):
         self.nsamples[0] = r0_nsamples
         self.objbeg = self.objval[0]  # f(x0), saved to check for sufficient reduction
         self.eval_num = np.zeros((npt,), dtype=int)  # which evaluation number (1-indexed, nx not nf) is currently stored self.points[k,:]
-        self.eval_num[0] = 1
+        self.eval_num[0] = x0_eval_num
 
         # Termination criteria
         self.abs_tol = abs_tol
